@@ -4,6 +4,10 @@ import json, os
 HERE = os.path.dirname(os.path.dirname(os.path.abspath(__file__)))
 
 CHECKS = {
+ 'C06': dict(level='model_checking', design='2/C06',
+   technique='exhaustive enumeration of (message type x shape x dialogue position x role x strict-kex) injections by an independent scripted peer into a real endpoint on the controlled loop, compared with the un-injected baseline run',
+   text='For each role under test, each of ~10 positions of the dialogue (every own-message boundary of the initial exchange, service, auth with a request outstanding, client parked in an asynchronous credential callback, channel open/request, end), each message type 1..100,192,255 and each shape (well-formed, truncated, trailing byte), with and without strict kex, the injected run must end the connection or, for messages legal at that position / RFC-ignorable, proceed exactly like the baseline. Strict kex: anything extra in the initial exchange is fatal, and a peer that does not restart its sequence number at NEWKEYS is rejected. Thorough adds ordered pairs.',
+   note='legal-at-position table from RFC 4253/4252/4254 + strict-kex extension; in-phase messages are checked for hygiene only.'),
  'C05': dict(level='model_checking', design='2/C05',
    technique='deviation-bounded stateless DFS over completion schedules (validator futures, begin_auth futures, executor jobs, packet deliveries) of every bounded USERAUTH request history, real server vs scripted independent client, auth ground-truth reference model',
    text='All histories of USERAUTH requests up to length 2 over the full alphabet and 3 (thorough 4) over a reduced one are sent pipelined by refpeer to a real SSHServerConnection whose application callbacks complete when the explorer says so; every schedule with at most 2 (thorough 3) deviations from FIFO is executed. The connection may be authenticated as U only if the history contains a credential valid for U; success and auth_completed at most once; no channel before success; enforced forced-command / port-forwarding restrictions (probed with exec and direct-tcpip) must be those of a valid credential for U. Converse: real asyncssh clients with password, key, certificate and agent-held key are admitted.',
